@@ -169,6 +169,15 @@ def _run(spec, rec, qv):
             raise Violation("truth_table/%s" % tree[0], "result %r at %r, expression is %r; tree=%r models=%r result=%r" % (
                 tb[r], ref.assignment(order, r, False), want[r], tree, mspecs, terms))
 
+    # the library's own evaluation of the returned model (dict assignments over exactly the tree's labels)
+    if hasattr(result, "value"):
+        for r in range(1 << n):
+            x = ref.assignment(order, r, False)
+            got = lib(result.value, x, what="result.value")
+            if got != (1 if want[r] else 0):
+                raise Violation("value_method/%s" % tree[0], "result.value(%r) = %r, expression is %r; tree=%r models=%r result=%r" % (
+                    x, got, want[r], tree, mspecs, terms))
+
     # aliasing: editing the returned object must not reach any input
     post = spec["post"]
 
@@ -188,6 +197,15 @@ def _run(spec, rec, qv):
         return R
     lib(edit, what="edit_result_" + post)
     check_watched("after_editing_result/%s" % tree[0])
+
+    # ... nor any later evaluation: build the same expression once more (inputs are unchanged, as just
+    # checked) - it must still compute the truth function although an earlier result was edited in place
+    result2 = ev(tree, ())
+    tb2 = ref.table(dict(result2), order, False) if _is_obj(result2) else None
+    if tb2 is None or any(tb2[r] != (1 if want[r] else 0) for r in range(1 << n)):
+        raise Violation("truth_table_after_editing_earlier_result/%s" % tree[0],
+                        "second evaluation of the same tree after editing the first result in place (%s): %r; tree=%r models=%r" %
+                        (post, dict(result2) if _is_obj(result2) else result2, tree, mspecs))
 
     d, ar = satref.depth(tree), satref.max_arity(tree)
     nontrivial = d >= 2 and ar >= 3
